@@ -10,7 +10,7 @@ hook_commits = [l.split()[0] for l in sh("git -C /repo log --format='%H %s' f707
 DAG = "dagsim"
 dag_note = ("Trusted: the reference model in /verif/sim/dagsim/src/model.rs (pure-graph braid, flat fact map, shadow of committed sets) and the "
             "DagPolicy command semantics shared by policy and model. Real code: aranya-runtime client/transaction/braiding/storage/sync. "
-            "Stubs: network, policy (Rust DagPolicy instead of the VM), sink, spill; memory IoManager unless file-backed. Sampled search: a clean batch is evidence, not proof.")
+            "Stubs: network, policy (Rust DagPolicy instead of the VM), sink, spill; memory IoManager unless file-backed (then the real FileManager over a simulated disk below aranya-libc's system calls). Every batch is split between two builds of the repository: shipped constants, and small spill/compaction/prealloc constants (cfg aranya_verif_knobs) plus the low-mem-usage sync limits. Sampled search: a clean batch is evidence, not proof.")
 def dag(pid, technique, text):
     return dict(property_id=pid, engine=DAG, technique=technique, text=text, note=dag_note, design=f"DESIGN.md section 5 ({pid})")
 
@@ -25,17 +25,17 @@ checks = [
  dag("C08", "deterministic simulation: several open transactions and actions interleaved on one replica by a seeded scheduler; shadow commit counter decides ConcurrentTransaction", "Commit must fail with ConcurrentTransaction iff another commit happened since the transaction first read the heads; committed set is monotone; failed commits change nothing."),
  dag("C09", "deterministic simulation: head set compared with the frontier of the shadow committed set after every commit/action, under duplicates, deep parents, merges of non-tips, flushes", "Heads strictly ascending by id and equal to the model frontier; init reachable."),
  dag("C10", "deterministic simulation with adversarial first commands and init-shaped commands at every batch position", "Graph creation only from a parentless first command with the graph id and a policy; foreign init rejected; own init re-delivery is a no-op."),
- dag("C11", "deterministic simulation: get_location / is_ancestor answers compared with the global DAG for all pairs (small graphs) or samples", "Lookup finds exactly committed commands at a location holding that id; is_ancestor equals proper ancestry in the model."),
+ dag("C11", "deterministic simulation: get_location / is_ancestor answers compared with the global DAG for all pairs (small graphs) or samples, with read errors placed inside lookups on file-backed replicas (may fail, never answer wrongly) and lookups repeated on the live storage after a commit failed with an injected disk error", "Lookup finds exactly committed commands at a location holding that id; is_ancestor equals proper ancestry in the model."),
  dag("C12", "deterministic simulation: committed fact indexes and every perspective handed to the policy dumped (prefix + exact) and compared with a flat map model", "Exact and prefix queries, ordering, tombstones, compaction and mid-segment reconstruction checked at the moment each perspective is used."),
  dag("C13", "deterministic simulation: revert reached through origin rejection of write-then-fail commands and failed session operations; later reads compared with the model", "State after a revert equals the model in which the failed operation never happened."),
  dag("C14", "deterministic simulation: session histories (actions, receives, failing operations, garbled messages) against a base+overlay map model", "Session view == committed facts overlaid with session writes; failed operations leave no change; graph heads/facts never change."),
- dag("C16", "deterministic simulation: complete undisturbed sync sessions over the simulated transport and a quiescence phase with bounded rounds", "Each undisturbed session delivers at least one command the requester lacked; bidirectional sync until silence converges within a bound."),
+ dag("C16", "deterministic simulation: complete undisturbed sync sessions over the simulated transport and a quiescence phase with bounded rounds", "Each undisturbed session delivers at least one command the requester lacked; bidirectional sync until silence converges within a bound. One cause-specific known finding (requester ahead of the peer by more than the sample window with no cache entry)."),
  dag("C17", "deterministic simulation: responder output observed through a mirror of the wire format; small receive buffers injected", "Sent commands are committed at the responder, indexes increase by one, sessions end, clean in-order responses are always addable."),
  dag("C18", "deterministic simulation with transport corruption: byte-level and field-aware mutations, truncation, misdelivery, duplication on live sessions under catch_unwind", "No panic on any delivered buffer; command slices inside the buffer; requester accepts only its own session and the next index."),
- dag("C19", "deterministic simulation: hello decisions evaluated between arbitrary replica pairs reached by sync, actions and lazy merges", "'No sync' implies committed(peer) subset of committed(self); one history class is a recorded known finding (merge-only difference)."),
- dag("C15", "deterministic simulation with crash injection: real FileManager/Writer/Reader of storage/linear/libc on a simulated disk below aranya-libc's system calls (page cache vs durable image, sector-atomic order-respecting loss of un-synced writes, torn multi-sector writes, lost length extension, EINTR, short I/O, EIO, ENOSPC, crash inside any system call, crash during the first commit after a recovery)", "After every crash and reopen the replica must expose the last completed commit or a commit that was in progress (heads = frontier of that command set; all commands, ancestry answers and facts readable and equal to the model), or an error only when no commit had completed; the run then continues on the recovered store under all other oracles."),
+ dag("C19", "deterministic simulation: hello decisions evaluated between arbitrary replica pairs reached by sync, actions and lazy merges", "'No sync' implies committed(peer) subset of committed(self), also right after a commit that failed with an injected disk error; equal head sets give equal hello heads; a replica without the graph always syncs."),
+ dag("C15", "deterministic simulation with crash injection: real FileManager/Writer/Reader of storage/linear/libc on a simulated disk below aranya-libc's system calls (page cache vs durable image, sector-atomic order-respecting loss of un-synced writes, torn multi-sector writes, lost length extension, EINTR, short I/O, EIO, ENOSPC, crash inside any system call, crash during the first commit after a recovery) plus crash-state exploration: at every fsync/fdatasync inside a commit up to 3 crash images are reopened with a fresh FileManager", "After every crash and reopen the replica must expose the last completed commit or a commit that was in progress (heads = frontier of that command set; all commands, ancestry answers and facts readable and equal to the model), or an error only when no commit had completed; the run then continues on the recovered store under all other oracles."),
  dag("C21", "deterministic simulation with an in-situ refinement monitor: every traversal-queue operation performed by searches, braids and sync during simulated runs is reported by a guarded hook with the queue's logical pre-state; each transition and each drain callback is checked against the documented rules transcribed over multisets", "Pop removes an entry of highest max cut; push keeps one entry per segment with the highest cut and the documented covered/uncovered merge; cover_up_to arithmetic; drain_above/drain_all remove exactly the entries above the threshold and hand exactly the uncovered ones to the callback. Only operation sequences the real callers produce are explored."),
- dag("C20", "deterministic simulation: peer-cache invariants after every update plus an exact delta rule per recorded address, including bogus and uncommitted addresses", "At most ten entries, each committed locally at the recorded location, pairwise non-ancestors; update rule exact."),
+ dag("C20", "deterministic simulation: peer-cache invariants after every update plus an exact delta rule per recorded address, including bogus and uncommitted addresses, and read errors placed inside updates on file-backed replicas", "At most ten entries, each committed locally at the recorded location, pairwise non-ancestors; update rule exact."),
 ]
 
 def simple(pid, engine, technique, text, note, design):
